@@ -1,4 +1,4 @@
-(* Persist/PInvTop.v — port of Core/DInvTop.v (and the eviction facts of Core/InvTop.v): the
+(* Persist/LInvTop.v — port of Core/DInvTop.v (and the eviction facts of Core/InvTop.v): the
    invariant across the API operations of the persist-mode model other than restore (new
    revisions, writes that report the OLD durability and install the new one, synthetic writes,
    eviction, reads, snapshots — which do not touch the database). *)
@@ -6,7 +6,7 @@ From Salsa Require Import Base.
 From Salsa.Kern Require Import CoreK CoreKFacts.
 From Salsa.Core Require Import Model Spec SpecProofs Inv DurSem.
 From Salsa.Core Require InvTop.
-From Salsa.Persist Require Import Model PSem PWp PInv PInvSem PInvOps.
+From Salsa.Persist Require Import Model PSem PWp LInv LInvSem LInvOps.
 
 Notation extend := Salsa.Core.InvTop.extend.
 Notation extend_same := Salsa.Core.InvTop.extend_same.
@@ -83,16 +83,16 @@ Variable rank : qkey -> nat.
 Hypothesis Hrank : calls_below prog rank.
 Variable NF : nat.
 Hypothesis Hbound : forall q, (rank q < NF)%nat.
-Variable pf : qkey -> bool.
+Variable fm : bool.
 Notation E := (E prog NF).
 Notation tr := (tr prog NF).
 Notation durge := (durge prog NF).
 Notation clos := (clos prog NF).
-Notation dmemo_ok := (dmemo_ok prog NF pf).
-Notation DInv := (DInv prog NF pf).
+Notation dmemo_ok := (dmemo_ok prog NF fm).
+Notation DInv := (DInv prog NF fm).
 Notation obs_pre := (obs_pre prog NF).
 Notation obs_ok := (obs_ok prog NF).
-Notation good := (good prog NF pf).
+Notation good := (good prog NF fm).
 Notation E_hist_eq := (Salsa.Core.InvTop.E_hist_eq).
 Notation tr_hist_eq := (Salsa.Core.InvTop.tr_hist_eq).
 
@@ -181,13 +181,13 @@ Record edges_ok (H : hist) (D : dhist) (s : db) (q : qkey) (m : memo) : Prop := 
          good H D s (m_edges m) (m_verified m) d;
   eo_cell : forall x, In x (tr H (m_verified m) q) -> untr x -> m_untracked m = true;
   eo_reach : forall d, In (EQ d) (m_edges m) -> reach prog q d;
-  eo_direct : pf q = false -> forall d, In (RQ d) (tr H (m_verified m) q) -> In (EQ d) (m_edges m);
-  eo_sync : forall d md, In (EQ d) (m_edges m) -> clos H (m_verified m) q d -> d_memo s d = Some md ->
-            m_verified m <= m_verified md \/ cconst prog NF H (m_verified md) (m_verified m) d
+  eo_flat : fm = true \/ forall d, In (RQ d) (tr H (m_verified m) q) -> In (EQ d) (m_edges m);
+  eo_sync : m_dur m = 0 -> forall d md, In (EQ d) (m_edges m) -> d_memo s d = Some md ->
+            m_verified m <= m_verified md
 }.
 
 Lemma edges_ok_of H D F s q m : dmemo_ok H D F s q m -> edges_ok H D s q m.
-Proof. intros [a b c d e f f' h i st j k]. constructor; assumption. Qed.
+Proof. intros [a b c d e f g h i st j k]. constructor; assumption. Qed.
 
 (* ---------------------------------------------------------------- from s under (H, D) to s' under (H', D') *)
 Section Transfer.
@@ -212,8 +212,8 @@ Proof. apply (obs_ok_same prog NF H D sd s); reflexivity. Qed.
 
 Let good_s L v d : good H D sd L v d -> good H D s L v d.
 Proof.
-  apply (good_mono prog NF pf H D sd s); [apply N.le_refl | intros g w k; apply obs_s|].
-  intros e me He. left. exact He.
+  apply (good_mono prog NF fm H D sd s); [apply N.le_refl|].
+  intros g w k. apply obs_s.
 Qed.
 
 Lemma obs_transfer g w k : obs_ok H D s g w k -> obs_ok H' D' s' g w k.
@@ -235,32 +235,18 @@ Proof.
       * specialize (Hlc k0). lia.
 Qed.
 
-Lemma cconst_transfer a b x : b <= cur s -> cconst prog NF H a b x -> cconst prog NF H' a b x.
-Proof.
-  intros Hb Hcc y Hy w Hw1 Hw2.
-  destruct (N.le_gt_cases a b) as [Hab | Hab]; [|lia].
-  destruct (Hpast a ltac:(lia)) as [HHa _]. destruct (Hpast w ltac:(lia)) as [HHw _].
-  apply (clos_hist_eq prog NF H' H) in Hy; [|symmetry; exact HHa].
-  destruct (Hcc y Hy w Hw1 Hw2) as [A B].
-  rewrite (tr_hist_eq prog NF H H' _ y HHw), (tr_hist_eq prog NF H H' _ y HHa).
-  rewrite (E_hist_eq prog NF H H' _ y HHw), (E_hist_eq prog NF H H' _ y HHa).
-  split; assumption.
-Qed.
-
 Lemma good_transfer L L' v d :
-  (forall e, In e L <-> In e L') -> good H D s L v d -> good H' D' s' L' v d.
+  (forall e, In e L -> In e L') -> good H D s L v d -> good H' D' s' L' v d.
 Proof.
-  intros Hinc Hg. induction Hg as [v d rho k Ho Hv Hu Hi Hl Hq IH].
-  pose proof (ob_order _ _ _ _ _ _ _ _ Ho) as (_ & Hr2).
-  destruct (Hpast rho Hr2) as [HHr _].
-  apply (good_exp prog NF pf H' D' s' L' v d rho k);
-    rewrite ?(tr_hist_eq prog NF H H' _ d HHr); auto.
-  - apply obs_transfer. exact Ho.
-  - intros i Hi0. apply Hinc. apply Hi. exact Hi0.
-  - intros e me' He HeL Hpe Hme'. destruct (Hsub e me' Hme') as (me & Hme & (T1 & _)).
-    rewrite T1. destruct (Hl e me He (proj2 (Hinc _) HeL) Hpe Hme) as [A | A]; [left; exact A | right].
-    apply cconst_transfer; [exact Hr2 | exact A].
-  - intros d' Hd' Hn. apply IH; [exact Hd'|]. intros Hin. apply Hn. apply Hinc. exact Hin.
+  intros Hinc Hg. induction Hg as [d a k Hf Hk Ha Hd | d rho k Ho Hv Hu Hi Hq IH].
+  - destruct (Hpast a Ha) as [HHa HDa].
+    apply (good_never prog NF fm H' D' s' L' v d a k Hf Hk); [lia|].
+    apply (durge_hist_eq prog NF H D H' D'); assumption.
+  - pose proof (ob_order _ _ _ _ _ _ _ _ Ho) as (_ & Hr2).
+    destruct (Hpast rho Hr2) as [HHr _].
+    apply (good_exp prog NF fm H' D' s' L' v d rho k);
+      rewrite ?(tr_hist_eq prog NF H H' _ d HHr); auto.
+    apply obs_transfer. exact Ho.
 Qed.
 
 (* a memo with the same edges (as a set) and the same origin kind *)
@@ -273,18 +259,15 @@ Proof.
   intros Hm (S1 & S2 & S3 & S4 & S5 & S6) Hd.
   pose proof (inv_memo _ _ _ _ _ _ _ HI q m Hm) as Hok.
   destruct (Hpast (m_verified m) (Hver q m Hm)) as [HHv HDv].
-  pose proof (mo_order _ _ _ _ _ _ _ _ _ Hok) as (_ & _ & Hvm). change (cur (set_cell s _)) with (cur s) in Hvm.
-  destruct Hok as [a0 b0 c0 d0 e0 f0 f0' h0 i0 st0 j0 k0].
+  destruct Hok as [a0 b0 c0 d0 e0 f0 g0 h0 i0 st0 j0 k0].
   constructor; rewrite ?S1, ?S3, ?S4, ?(tr_hist_eq prog NF H H' _ q HHv); auto.
   - intros i Hi. apply S5. apply c0. exact Hi.
-  - intros Hu0 d1 Hd1 Hn. apply (good_transfer (m_edges m)); [intros e; symmetry; apply S5|].
+  - intros Hu0 d1 Hd1 Hn. apply (good_transfer (m_edges m)); [intros e He; apply S5; exact He|].
     apply good_s. apply d0; [congruence | exact Hd1|]. intros Hin. apply Hn. apply S5. exact Hin.
   - intros d1 Hd1. apply f0. apply S5. exact Hd1.
-  - intros Hp d1 Hd1. apply S5. apply (f0' Hp d1 Hd1).
-  - intros d1 md' Hd1 Hcl1 Hmd'. destruct (Hd d1 md' Hd1 Hmd') as (md & Hmd & ->).
-    apply (clos_hist_eq prog NF H' H) in Hcl1; [|symmetry; exact HHv].
-    destruct (k0 d1 md (proj1 (S5 _) Hd1) Hcl1 Hmd) as [A | A]; [left; exact A | right].
-    apply cconst_transfer; [exact Hvm | exact A].
+  - destruct g0 as [A | A]; [left; exact A | right]. intros d1 Hd1. apply S5. apply A. exact Hd1.
+  - intros Hz d1 md' Hd1 Hmd'. destruct (Hd d1 md' Hd1 Hmd') as (md & Hmd & ->).
+    apply (k0 Hz d1 md); [apply S5; exact Hd1 | exact Hmd].
 Qed.
 
 (* stamps: the inputs' only grow; a dropped memo leaves its stamp in the ghost table *)
@@ -328,15 +311,17 @@ Lemma DInv_transfer :
   (forall r i, D' r i <= 3) ->
   (forall r i, r < cur s' -> lcs s' (D' r i) <= r ->
      sn_in (H' (r + 1)) i = sn_in (H' r) i /\ D' (r + 1) i = D' r i) ->
+  (fm = true -> forall r i, D' r i = 0) ->
+  (fm = true -> forall k, 1 <= k -> lcs s' k <= 1) ->
   DInv H' D' F' s'.
 Proof.
-  intros H1 Hrv Hedges Hin Hdur Hinle Hcell Hd3 Hwr.
+  intros H1 Hrv Hedges Hin Hdur Hinle Hcell Hd3 Hwr HlD Hlr.
   assert (Hprov_sd : forall q rho c, prov prog NF H sd F q rho c -> prov prog NF H s F q rho c).
   { intros q rho c. apply (prov_same prog NF H sd s); reflexivity. }
   constructor; auto.
   - intros q m' Hm'. destruct (Hsub q m' Hm') as (m & Hm & (S1 & S2 & S3 & S6)).
     pose proof (obs_transfer q (m_verified m) (m_dur m)
-                  (obs_s _ _ _ (obs_of_memo prog NF pf H D F _ q m (inv_memo _ _ _ _ _ _ _ HI q m Hm)))) as Ho.
+                  (obs_s _ _ _ (obs_of_memo prog NF fm H D F _ q m (inv_memo _ _ _ _ _ _ _ HI q m Hm)))) as Ho.
     destruct (Hedges q m' Hm') as [e1 e2 e3 e4 e5 e6].
     destruct (Hpast (m_verified m) (Hver q m Hm)) as [HHv HDv].
     pose proof (mo_order _ _ _ _ _ _ _ _ _ (inv_memo _ _ _ _ _ _ _ HI q m Hm)) as (O1 & O2 & O3).
@@ -357,7 +342,7 @@ Proof.
       pose proof (mo_order _ _ _ _ _ _ _ _ _ Hok) as (O1 & O2 & O3).
       split; [exact O2|]. split.
       * apply obs_transfer. apply obs_s.
-        destruct (obs_of_memo prog NF pf H D F _ d md Hok) as [a b c0 d0].
+        destruct (obs_of_memo prog NF fm H D F _ d md Hok) as [a b c0 d0].
         constructor; auto; [apply (durge_zero prog rank Hrank NF H D) | lia|].
         intros x mx Hx Hmx Hp. destruct (d0 x mx Hx Hmx Hp) as [A _]. split; [exact A | lia].
       * apply prov_transfer; [apply (Hver d md Hmd)|]. apply Hprov_sd. apply (mo_stamp _ _ _ _ _ _ _ _ _ Hok).
@@ -371,8 +356,8 @@ End Transfer.
 
 Lemma DInv_to_d H D F s : DInv H D F s -> DInv_d H D F s.
 Proof.
-  intros [a a' b b' c d e f g gh]. unfold DInv_d. constructor; auto.
-  - intros q m Hm. apply (dmemo_ok_same prog NF pf H D F s); [reflexivity | reflexivity | reflexivity|].
+  intros [a a' b b' c d e f g gh l1 l2]. unfold DInv_d. constructor; auto.
+  - intros q m Hm. apply (dmemo_ok_same prog NF fm H D F s); [reflexivity | reflexivity | reflexivity|].
     apply g. exact Hm.
   - intros d0 rho c0 Hn HF. destruct (gh d0 rho c0 Hn HF) as (A & B & C0).
     split; [exact A|]. split; [apply (obs_ok_same prog NF H D s); [reflexivity | reflexivity | exact B]|].
@@ -386,12 +371,14 @@ Lemma DInv_d_facts H D F s : DInv_d H D F s ->
   (forall i r, f_changed (d_in s i) <= r -> r <= cur s -> D r i = f_dur (d_in s i)) /\
   (forall i, f_changed (d_in s i) <= cur s) /\ (forall r i, D r i <= 3) /\
   (forall r i, r < cur s -> lcs s (D r i) <= r ->
-     sn_in (H (r + 1)) i = sn_in (H r) i /\ D (r + 1) i = D r i).
+     sn_in (H (r + 1)) i = sn_in (H r) i /\ D (r + 1) i = D r i) /\
+  (fm = true -> forall r i, D r i = 0) /\ (fm = true -> forall k, 1 <= k -> lcs s k <= 1).
 Proof.
-  unfold DInv_d. intros [a a' b b' c d e f g gh].
+  unfold DInv_d. intros [a a' b b' c d e f g gh l1 l2].
   split; [exact a|]. split; [exact a'|]. split.
   - intros q m Hm. pose proof (mo_order _ _ _ _ _ _ _ _ _ (g q m Hm)) as (_ & _ & Hv). exact Hv.
-  - split; [exact b|]. split; [exact b'|]. split; [exact c|]. split; [exact e | exact f].
+  - split; [exact b|]. split; [exact b'|]. split; [exact c|]. split; [exact e|].
+    split; [exact f|]. split; [exact l1 | exact l2].
 Qed.
 
 (* ---------------------------------------------------------------- "ok" states *)
@@ -409,12 +396,15 @@ Proof.
 Qed.
 
 Lemma OK_d_inputs s : OK_d s ->
-  revs_ok (d_revs s) /\ (forall i, f_dur (d_in s i) <= 3).
+  revs_ok (d_revs s) /\ (forall i, f_dur (d_in s i) <= 3) /\
+  (fm = true -> (forall i, f_dur (d_in s i) = 0) /\ forall k, 1 <= k -> lcs s k <= 1).
 Proof.
   intros (H & D & F & HI).
-  destruct (DInv_d_facts H D F s HI) as (F1 & F2 & F3 & F4 & F5 & F6 & F7 & F8).
-  split; [exact F2|].
-  intros i. rewrite <- (F5 i (cur s)); [apply F7 | apply F6 | lia].
+  destruct (DInv_d_facts H D F s HI) as (F1 & F2 & F3 & F4 & F5 & F6 & F7 & F8 & F9 & F10).
+  split; [exact F2|]. split.
+  - intros i. rewrite <- (F5 i (cur s)); [apply F7 | apply F6 | lia].
+  - intros Hf. split; [|apply (F10 Hf)].
+    intros i. rewrite <- (F5 i (cur s)); [apply (F9 Hf) | apply F6 | lia].
 Qed.
 
 (* memos of s' that come from memos of s with the same edges: their dependencies' memos do *)
@@ -430,7 +420,7 @@ Lemma OK_d_same s s' :
   sub_sim (d_memo s) (d_memo s') -> OK_d s'.
 Proof.
   intros (H & D & F & HI) Hr Hi Hev. exists H, D, (lift s F).
-  destruct (DInv_d_facts H D F s HI) as (F1 & F2 & F3 & F4 & F5 & F6 & F7 & F8).
+  destruct (DInv_d_facts H D F s HI) as (F1 & F2 & F3 & F4 & F5 & F6 & F7 & F8 & F9 & F10).
   assert (Hc : cur s' = cur s) by (unfold cur; rewrite Hr; reflexivity).
   unfold DInv_d.
   set (s2 := set_cell s' (sn_cell (H (cur s')))).
@@ -445,6 +435,7 @@ Proof.
     apply (edges_sim H D F H D s s2 HI Hcle Hlc (sub_sim_core _ _ Hev) Hpast q m m' Hm Hsim).
     intros d md' _ Hmd'. apply (sub_sim_deps _ _ Hev d md' Hmd').
   - intros r i Hlt Hl. apply F8; [exact Hlt|]. unfold lcs in *. cbn in Hl. rewrite Hr in Hl. exact Hl.
+  - intros Hf k Hk. specialize (F10 Hf k Hk). unfold lcs in *. cbn. rewrite Hr. exact F10.
 Qed.
 
 Lemma OK_same s s' :
@@ -453,7 +444,7 @@ Lemma OK_same s s' :
 Proof.
   intros (H & D & F & HI) Hr Hi Hce Hev. exists H, D, (lift s F).
   pose proof (DInv_to_d H D F s HI) as HId.
-  destruct (DInv_d_facts H D F s HId) as (F1 & F2 & F3 & F4 & F5 & F6 & F7 & F8).
+  destruct (DInv_d_facts H D F s HId) as (F1 & F2 & F3 & F4 & F5 & F6 & F7 & F8 & F9 & F10).
   assert (Hc : cur s' = cur s) by (unfold cur; rewrite Hr; reflexivity).
   assert (Hlc : forall k, lcs s k <= lcs s' k) by (intros k; unfold lcs; rewrite Hr; lia).
   assert (Hpast : forall r, r <= cur s -> H r = H r /\ forall i, D r i = D r i) by (intros; split; reflexivity).
@@ -465,6 +456,7 @@ Proof.
     intros d md' _ Hmd'. apply (sub_sim_deps _ _ Hev d md' Hmd').
   - rewrite Hce. apply (inv_cell _ _ _ _ _ _ _ HI).
   - intros r i Hlt Hl. apply F8; [exact Hlt|]. unfold lcs in *. rewrite Hr in Hl. exact Hl.
+  - intros Hf k Hk. specialize (F10 Hf k Hk). unfold lcs in *. rewrite Hr. exact F10.
 Qed.
 
 (* a state in which nothing has been verified at the current revision yet *)
@@ -484,11 +476,12 @@ Lemma OK_advance_gen s s' :
   (forall i, d_in s' i = d_in s i \/
              (f_changed (d_in s' i) = cur s' /\ lcs s' (f_dur (d_in s i)) = cur s')) ->
   (forall i, f_dur (d_in s' i) <= 3) ->
+  (fm = true -> (forall i, f_dur (d_in s' i) = 0) /\ forall k, 1 <= k -> lcs s' k <= 1) ->
   sub_sim (d_memo s) (d_memo s') ->
   OK s' /\ fresh s'.
 Proof.
-  intros (H & D & F & HI) Hrc Hrv Hlc Hins Hd3 Hev.
-  destruct (DInv_d_facts H D F s HI) as (F1 & F2 & F3 & F4 & F5 & F6 & F7 & F8).
+  intros (H & D & F & HI) Hrc Hrv Hlc Hins Hd3 Hlow Hev.
+  destruct (DInv_d_facts H D F s HI) as (F1 & F2 & F3 & F4 & F5 & F6 & F7 & F8 & F9 & F10).
   assert (Hc : cur s' = cur s + 1) by (unfold cur; exact Hrc).
   assert (Hpast : forall r, r <= cur s ->
             extend H (cur s') (csnap s') r = H r /\
@@ -529,6 +522,9 @@ Proof.
       * rewrite !extend_other, !extendD_other by lia.
         rewrite extendD_other in Hl by lia.
         apply F8; [lia|]. specialize (Hlc (D r i)). lia.
+    + intros Hf r i. destruct (Hlow Hf) as [Hz _]. unfold extendD.
+      destruct (r =? cur s'); [apply Hz | apply (F9 Hf)].
+    + intros Hf. apply (proj2 (Hlow Hf)).
   - intros q m' Hm'. destruct (Hev q m' Hm') as (m & Hm & (S1 & _)).
     rewrite S1. specialize (F3 q m Hm). lia.
 Qed.
@@ -536,11 +532,12 @@ Qed.
 (* a revision-vector change alone (a synthetic write): levels only move forward *)
 Lemma OK_revs s s' :
   OK s -> cur s' = cur s -> revs_ok (d_revs s') -> (forall k, lcs s k <= lcs s' k) ->
+  (fm = true -> forall k, 1 <= k -> lcs s' k <= 1) ->
   d_in s' = d_in s -> d_cell s' = d_cell s -> d_memo s' = d_memo s -> OK s'.
 Proof.
-  intros (H & D & F & HI) Hc Hrv Hlc Hi Hce Hm. exists H, D, (lift s F).
+  intros (H & D & F & HI) Hc Hrv Hlc Hlow Hi Hce Hm. exists H, D, (lift s F).
   pose proof (DInv_to_d H D F s HI) as HId.
-  destruct (DInv_d_facts H D F s HId) as (F1 & F2 & F3 & F4 & F5 & F6 & F7 & F8).
+  destruct (DInv_d_facts H D F s HId) as (F1 & F2 & F3 & F4 & F5 & F6 & F7 & F8 & F9 & F10).
   assert (Hev : sub_sim (d_memo s) (d_memo s')) by (rewrite Hm; apply evicted_sub_sim, evicted_refl).
   assert (Hpast : forall r, r <= cur s -> H r = H r /\ forall i, D r i = D r i) by (intros; split; reflexivity).
   assert (Hcle : cur s <= cur s') by lia.
